@@ -26,7 +26,7 @@ struct GlyphSpec {
     bases: Vec<String>,
     id: u64,          // unique per file: written as advance width, the "payload"
     broken: u8,       // 0 = fine
-    dup_of: Option<usize>, // shares the file of glyph #i of the same layer (class dup-paths)
+    dup_of: Option<usize>, // shares the file of glyph #i of the same layer (refused at load since afd801a)
 }
 struct LayerSpec {
     name: String,
@@ -192,7 +192,17 @@ fn gen_ufo(rng: &mut Rng, sh: &Shape) -> UfoSpec {
             continue;
         }
         let gi = rng.below(layers[li].glyphs.len() as u64) as usize;
-        layers[li].glyphs[gi].broken = rng.range(1, 8) as u8;
+        layers[li].glyphs[gi].broken = rng.range(1, 9) as u8;
+        if layers[li].glyphs[gi].broken == 9 {
+            // a contents value that is not a plain file name: refused before any glif is read
+            let f = layers[li].glyphs[gi].file.clone();
+            layers[li].glyphs[gi].file = match rng.below(4) {
+                0 => format!("sub/{}", f),
+                1 => format!("../{}", f),
+                2 => format!("./{}", f),
+                _ => format!("/{}", f),
+            };
+        }
     }
     // two names, one file
     for _ in 0..sh.dups {
@@ -334,13 +344,14 @@ fn write_ufo(rng: &mut Rng, u: &UfoSpec, dir: &Path) {
     write_file(&dir.join("metainfo.plist"), &format!("{}<dict>\n<key>creator</key>\n<string>org.verif.c19</string>\n<key>formatVersion</key>\n<integer>{}</integer>\n</dict>\n</plist>\n", PLIST_HEAD, ver));
     write_file(&dir.join("fontinfo.plist"), &format!("{}<dict>\n<key>familyName</key>\n<string>C19 &amp; co</string>\n<key>unitsPerEm</key>\n<integer>1000</integer>\n<key>ascender</key>\n<real>750.5</real>\n</dict>\n</plist>\n", PLIST_HEAD));
     write_file(&dir.join("lib.plist"), &format!("{}<dict>\n<key>com.verif.seed</key>\n<integer>{}</integer>\n</dict>\n</plist>\n", PLIST_HEAD, rng.below(1000)));
-    // groups / kerning: group names that coincide with glyph names and component bases make the
-    // interner's content observable through the legacy kerning upconversion
+    // groups / kerning: in legacy UFOs, group names that coincide with glyph names, glif-internal
+    // names and component bases (since 090c163 upconversion asks a set built from the loaded glyph
+    // names, no longer the interner; the result must still be the same in both builds)
     let all: Vec<&GlyphSpec> = u.layers.iter().flat_map(|l| l.glyphs.iter()).collect();
     // group members: pairwise different glyph names (a glyph may sit in one kern1 group only)
     let mut distinct: Vec<String> = vec![];
     for g in &all {
-        if !distinct.contains(&g.key) && distinct.len() < 16 {
+        if !distinct.contains(&g.key) && distinct.len() < 300 {
             distinct.push(g.key.clone());
         }
     }
@@ -364,8 +375,10 @@ fn write_ufo(rng: &mut Rng, u: &UfoSpec, dir: &Path) {
             for k in 0..5 {
                 names.push(format!("@grp{}", k));
             }
+            // one member each, pairwise different (upconverted kern groups must not overlap)
+            names.truncate(distinct.len());
             for (k, gname) in names.iter().enumerate() {
-                let _ = writeln!(gs, "<key>{}</key>\n<array>\n<string>{}</string>\n</array>", xml_esc(gname), xml_esc(&distinct[k % distinct.len()]));
+                let _ = writeln!(gs, "<key>{}</key>\n<array>\n<string>{}</string>\n</array>", xml_esc(gname), xml_esc(&distinct[k]));
                 firsts.push(gname.clone());
             }
         } else {
@@ -420,7 +433,7 @@ fn write_ufo(rng: &mut Rng, u: &UfoSpec, dir: &Path) {
             write_file(&ld.join("layerinfo.plist"), &format!("{}<dict>\n{}</dict>\n</plist>\n", PLIST_HEAD, li));
         }
         for g in &l.glyphs {
-            if g.dup_of.is_some() || g.broken == 8 {
+            if g.dup_of.is_some() || g.broken == 8 || g.broken == 9 {
                 continue; // shares another glyph's file / file missing
             }
             write_file(&ld.join(&g.file), &glif_text(rng, g));
@@ -450,7 +463,9 @@ fn case_term(u: &UfoSpec, table: &[String], index: &HashMap<String, usize>, seed
             let reqs: Vec<u64> = std::iter::once(ix(&src.inner)).chain(src.bases.iter().map(|b| ix(b))).collect();
             let out = if src.broken != 0 { "None".to_string() } else { format!("(Some {})", src.id) };
             let reqs = if src.broken != 0 { vec![] } else { reqs };
-            ts.push(format!("({},{},{})", ix(&g.key), g_nlist(reqs), out));
+            // the file-name check of load_impl looks at the entry's own value
+            let file = if g.broken == 9 { "None".to_string() } else { format!("(Some {})", g_str(&g.file)) };
+            ts.push(format!("({},{},{},{})", ix(&g.key), file, g_nlist(reqs), out));
         }
         ls.push(format!("({},{})", ix(&l.name), g_list(&ts)));
     }
@@ -509,7 +524,7 @@ fn shapes(rng: &mut Rng, thorough: bool) -> Vec<Shape> {
             legacy: false,
         });
     }
-    // class dup-paths: two keys of `contents` naming one file
+    // two keys of `contents` naming one file: refused at load by both builds (regression for dup-glif-paths)
     for k in 0..(4 * mult) {
         v.push(Shape {
             layers: rng.range(1, 3) as usize,
